@@ -178,5 +178,66 @@ emit('''    //@harness k_split_contract mode=bounded bound="payload length <= 20
         assert!(d.as_ptr() == p.as_ptr());
     }
 ''')
+emit('''    //@harness k_extobj_iter_contract mode=bounded bound="extension structure <= 28 octets, first 4 next() calls" timeout=900
+    #[kani::proof]
+    #[kani::unwind(8)]
+    fn k_extobj_iter_contract() {
+        let buf: [u8; 28] = kani::any();
+        let len: usize = kani::any(); kani::assume(len >= 4 && len <= 28);
+        let b = &buf[..len];
+        let p = crate::icmp_extension::extension_structure::ExtensionsPacket::new_view(b).unwrap();
+        let mut it = p.objects();
+        let mut off: usize = 4;     // model state: RFC 4884 objects start after the 4-octet extension header
+        let mut done = false;
+        let mut k = 0;
+        while k < 4 {
+            let r = it.next();
+            let fits = off + 4 <= len && {
+                let l = usize::from(b[off]) * 256 + usize::from(b[off + 1]);
+                l >= 4 && off + l <= len
+            };
+            if done { /* after a None the code keeps its offset: the same answer again */ }
+            match r {
+                Some(o) => {
+                    assert!(fits);
+                    assert!(o.len() == len - off);
+                    assert!(o.as_ptr() as usize == b.as_ptr() as usize + off);
+                    off += usize::from(b[off]) * 256 + usize::from(b[off + 1]);
+                    assert!(off <= len);
+                }
+                None => { assert!(!fits); done = true; }
+            }
+            k += 1;
+        }
+    }
+    //@harness k_mpls_iter_contract mode=bounded bound="label stack <= 20 octets, first 5 next() calls" timeout=900
+    #[kani::proof]
+    #[kani::unwind(8)]
+    fn k_mpls_iter_contract() {
+        let buf: [u8; 20] = kani::any();
+        let len: usize = kani::any(); kani::assume(len >= 4 && len <= 20);
+        let b = &buf[..len];
+        let p = crate::icmp_extension::mpls_label_stack::MplsLabelStackPacket::new_view(b).unwrap();
+        let mut it = p.members();
+        let mut off: usize = 0;
+        let mut bos: u8 = 0;        // RFC 3032: the entry with S = 1 is the last one
+        let mut k = 0;
+        while k < 5 {
+            let r = it.next();
+            let expect = bos == 0 && off + 4 <= len;
+            match r {
+                Some(m) => {
+                    assert!(expect);
+                    assert!(m.len() == len - off);
+                    assert!(m.as_ptr() as usize == b.as_ptr() as usize + off);
+                    bos = b[off + 2] & 1;
+                    off += 4;
+                }
+                None => { assert!(!expect); }
+            }
+            k += 1;
+        }
+    }
+''')
 emit('}')
 print('\n'.join(out))
